@@ -24,6 +24,25 @@ FILTERS = {
 }
 
 
+def aho_pairs(f, body):
+    """(automaton variable id, context variable id) pairs of a function: the two leading fields bound by one
+    `Search::AhoCorasick(a, m, _)` pattern, or slow_aho's own first two parameters (its callers pass such a pair, see T-SEARCH)."""
+    pairs = set()
+    for pat in q.all_patterns(body):
+        for alt in or_pats(pat):
+            for pp in q._walk_pat(alt):
+                v = variant_of(pp)
+                if v and v[0] == "Search" and v[1] == "AhoCorasick":
+                    a, m = strip_ref(subpat(pp, 0)), strip_ref(subpat(pp, 1))
+                    if a is not None and m is not None and a.get("k") == "Bind" and m.get("k") == "Bind":
+                        pairs.add((a["id"], m["id"]))
+    if f.name == "solver::slow_aho":
+        ps = [strip_ref(p_["pat"]) for p_ in f.thir["params"] if p_.get("pat")]
+        if len(ps) >= 2 and ps[0].get("k") == "Bind" and ps[1].get("k") == "Bind" and "AhoCorasick" in ps[0].get("ty", "") and "MatchType" in ps[1].get("ty", ""):
+            pairs.add((ps[0]["id"], ps[1]["id"]))
+    return pairs
+
+
 def lockstep_roles(F):
     """{insensitive flag: (needle vector id, context vector id, needle name, context name)} for the two list automata of parse_mapping,
     found by structure: Search::AhoCorasick(build(<needles>), <context>, <flag literal>) with both vectors plain variables."""
@@ -119,25 +138,32 @@ def run(rep):
         if f is None:
             rep.lost("T-OFFSET", "T-OFFSET/anchor/" + fname, fname)
             continue
-        for n in walk(f.body):
+        # hoisted pure lets (`let p = hit.pattern()`, `let end = value.len()`) are substituted away first
+        fbody = q.inline_pure_lets(f.body, [p_["pat"] for p_ in f.thir["params"] if p_.get("pat")])
+        pairs = aho_pairs(f, fbody)
+        for n in walk(fbody):
             if n.get("k") == "For" and call_is(peel(n["iter"]), "find_overlapping_iter") or (n.get("k") == "For" and "AhoCorasick::find" in show(n["iter"])):
-                copies.append((fname, n))
+                copies.append((fname, n, pairs))
     rep.check(len(copies) == 3, "T-OFFSET", "T-OFFSET/copies", "src/solver.rs", "three automaton scan loops (search, slow_aho bitmap, slow_aho set)", str(len(copies)))
-    for idx, (fname, loop) in enumerate(copies):
+    for idx, (fname, loop, pairs) in enumerate(copies):
         tag = "%s#%d" % (fname.split("::")[-1], idx)
         it = peel(loop["iter"])
+        hay = peel(it["args"][1]) if it.get("k") == "Call" and len(it["args"]) == 2 else {}
         rep.check(call_is(it, "AhoCorasick::find_overlapping_iter"), "AHO-OVERLAP", "AHO-OVERLAP/scan/" + tag, loop["sp"], "the scan enumerates all overlapping hits", show(it))
         ivar = loop["pat"].get("name")
+        ren = {ivar: "i"}
+        if hay.get("k") == "Var":
+            ren[hay["name"]] = "value"
         ms = [x for x in walk(loop["body"]) if x.get("k") == "Match" and any(variant_of(p) and variant_of(p)[0] == "MatchType" for a in x["arms"] for p in or_pats(a["pat"]))]
         if len(ms) != 1:
             rep.lost("T-OFFSET", "T-OFFSET/match/" + tag, "one match on the hit's MatchType")
             continue
         mm = ms[0]
-        sc = show(mm["scrut"], ren={ivar: "i"})
-        # m[i.pattern()] or m[p] with p = i.pattern()
-        okidx = sc in ("Index::index(m, Match::pattern(i))", "Index::index(m, p)")
-        if sc == "Index::index(m, p)":
-            okidx = any(s["k"] == "Let" and s["pat"].get("name") == "p" and show(s["init"], ren={ivar: "i"}) == "Match::pattern(i)" for x in walk(loop["body"]) if x.get("k") == "Block" for s in x["stmts"])
+        sc = show(mm["scrut"], ren=ren)
+        # context[hit.pattern()] where context is the kind vector stored beside this automaton
+        scn = peel(mm["scrut"])
+        okidx = call_is(scn, "Index::index") and len(scn["args"]) == 2 and call_is(peel(scn["args"][1]), "Match::pattern") and q.var_id(peel(scn["args"][1])["args"][0]) == loop["pat"].get("id") \
+            and it.get("k") == "Call" and (q.base_var(it["args"][0]), q.base_var(scn["args"][0])) in pairs
         rep.check(okidx, "T-OFFSET", "T-OFFSET/index/" + tag, mm["sp"], "the hit's kind is context[hit.pattern()]", sc)
         actions = set()
         for a in mm["arms"]:
@@ -147,27 +173,46 @@ def run(rep):
             cond = None
             act = b
             if b.get("k") == "If":
-                cond = show(b["cond"], ren={ivar: "i"})
+                cond = show(b["cond"], ren=ren)
                 act = unblock(b["then"])
                 if b.get("else"):
                     cond = "else!"
             want = FILTERS.get(kind, "?")
             rep.check(cond == want, "T-OFFSET", "T-OFFSET/%s/%s" % (tag, kind), a["sp"], "MatchType::%s filter is %s" % (kind, want or "none"), str(cond))
-            actions.add(show(act, ren={ivar: "i"}))
+            actions.add(show(act, ren=ren))
         rep.check(len(actions) == 1, "T-OFFSET", "T-OFFSET/same-action/" + tag, mm["sp"], "all four kinds record the hit in the same way", str(sorted(actions)))
         rep.check({variant_of(a["pat"])[1] for a in mm["arms"] if variant_of(a["pat"])} == set(FILTERS), "T-OFFSET", "T-OFFSET/kinds/" + tag, mm["sp"], "all four MatchType kinds handled", "")
+    # every caller of slow_aho hands it an automaton together with the kind vector stored beside it
+    ncall = 0
+    for name, f in F.fns.items():
+        if f.thir is None:
+            continue
+        cs = [x for x in walk(f.body) if call_is(x, "solver::slow_aho")]
+        if not cs:
+            continue
+        pairs = aho_pairs(f, f.body)
+        for x in cs:
+            ncall += 1
+            okp = len(x["args"]) == 3 and (q.base_var(x["args"][0]), q.base_var(x["args"][1])) in pairs
+            rep.check(okp, "T-OFFSET", "T-OFFSET/slow_aho-args/%s#%d" % (name, ncall), x["sp"], "slow_aho(a, m, value) receives the automaton and kind vector of one Search::AhoCorasick node", show(x)[:80])
+    rep.check(ncall >= 2, "T-OFFSET", "T-OFFSET/slow_aho-callers", "src/solver.rs", "slow_aho call sites found (match_all, match_of)", str(ncall))
     # slow_aho: bit recorded is the pattern's own index; hits counted over 0..len
     sa = F.fn("solver::slow_aho")
     if sa is not None:
-        s = show_fn(sa)
-        want = ("fn($a, $m, $value) {let $len = <impl [T]>::len(m); if (len Lt 64) {{let $map = 0; for $i in AhoCorasick::find_overlapping_iter(a, value) {{let $p = Match::pattern(i); match Index::index(m, p) {"
-                "MatchType::Contains(_) => map BitOrAssign (1 Shl PatternID::as_u64(p)), MatchType::EndsWith(_) => if (Match::end(i) Eq <impl str>::len(value)) {map BitOrAssign (1 Shl PatternID::as_u64(p))}, "
-                "MatchType::Exact(_) => if ((Match::start(i) Eq 0) && (Match::end(i) Eq <impl str>::len(value))) {map BitOrAssign (1 Shl PatternID::as_u64(p))}, "
-                "MatchType::StartsWith(_) => if (Match::start(i) Eq 0) {map BitOrAssign (1 Shl PatternID::as_u64(p))}}}}; let $hits = 0; for $i in Range::Range{start: 0, end: len} {hits AddAssign ((map Shr i) BitAnd 1)}; hits}} else {"
-                "{let $hits = <T>::with_capacity(len); for $i in AhoCorasick::find_overlapping_iter(a, value) {{let $p = Match::pattern(i); match Index::index(m, p) {"
-                "MatchType::Contains(_) => <T, S, A>::insert(hits, p), MatchType::EndsWith(_) => if (Match::end(i) Eq <impl str>::len(value)) {<T, S, A>::insert(hits, p)}, "
-                "MatchType::Exact(_) => if ((Match::start(i) Eq 0) && (Match::end(i) Eq <impl str>::len(value))) {<T, S, A>::insert(hits, p)}, "
-                "MatchType::StartsWith(_) => if (Match::start(i) Eq 0) {<T, S, A>::insert(hits, p)}}}}; (<T, S, A>::len(hits) as u64)}}}")
+        import alpha
+        ps = [pat_str(p_["pat"]) for p_ in sa.thir["params"] if p_.get("pat")]
+        s = alpha.S("fn(" + ", ".join(ps) + ") {" + str(show(q.inline_pure_lets(sa.body, [p_["pat"] for p_ in sa.thir["params"] if p_.get("pat")]))) + "}")
+        P = "Match::pattern(i)"
+        bit = "map BitOrAssign (1 Shl PatternID::as_u64(%s))" % P
+        ins = "<T, S, A>::insert(hits, %s)" % P
+
+        def half(act):
+            return ("for $i in AhoCorasick::find_overlapping_iter(a, value) {match Index::index(m, %s) {MatchType::Contains(_) => %s, "
+                    "MatchType::EndsWith(_) => if (Match::end(i) Eq <impl str>::len(value)) {%s}, "
+                    "MatchType::Exact(_) => if ((Match::start(i) Eq 0) && (Match::end(i) Eq <impl str>::len(value))) {%s}, "
+                    "MatchType::StartsWith(_) => if (Match::start(i) Eq 0) {%s}}}") % (P, act, act, act, act)
+        want = ("fn($a, $m, $value) {if (<impl [T]>::len(m) Lt 64) {{let $map = 0; " + half(bit) + "; let $hits = 0; for $i in Range::Range{start: 0, end: <impl [T]>::len(m)} {hits AddAssign ((map Shr i) BitAnd 1)}; hits}} else {"
+                "{let $hits = <T>::with_capacity(<impl [T]>::len(m)); " + half(ins) + "; (<T, S, A>::len(hits) as u64)}}}")
         rep.check(s == want, "T-OFFSET", "T-OFFSET/count-halves", sa.sp, "slow_aho: bitmap half (bit per pattern id, popcount over 0..len, only when len < 64) and set half (distinct pattern ids), both over the filtered overlapping hits", None if s == want else "body differs from the reviewed form (modulo renaming)")
 
     # ---------------------------------------------------------------- builders: AHO-OVERLAP (kind), FLAG
